@@ -174,12 +174,23 @@ func (p *Program) preDecodeBlocks() ExitReason {
 
 		for {
 			if pc >= ProgramCounter(n) {
-				return ExitPanic
+				// The code is implicitly zero-extended (A.4): a block that runs off the
+				// end of the blob ends in the trap instruction found there.
+				p.Instrs = append(p.Instrs, InstrMeta{
+					PC:   pc,
+					Dst:  0xFF,
+					Src:  [2]uint8{0xFF, 0xFF},
+					Exec: instTrapMeta,
+				})
+				block.EndPC = pc
+				block.InstrEnd = len(p.Instrs)
+				block.GasCost = Gas(block.InstrEnd - block.InstrStart)
+				p.BlockAt[block.StartPC] = block
+				break
 			}
+			// An undefined opcode is not an error of the program: it executes as trap
+			// (instrMetaExecForOpcode maps it to instTrapMeta) if and when it is reached.
 			op := idata[pc]
-			if !IsValidOpcode(op) {
-				return ExitPanic
-			}
 
 			skipLen := skip(int(pc), bitmask)
 
